@@ -711,4 +711,75 @@ example : IsDist (5 : ℚ) (0, 0) (3, 4) ∧ GenPos (5 : ℚ) 1 2 := by
   refine ⟨⟨by norm_num, by simp [dist2]; norm_num⟩, ?_⟩
   simp [GenPos]; norm_num
 
+/-! ## statements added after the model-mutant round (each pins a detail that no earlier theorem depended on) -/
+
+/-- the pairwise tables are laid out row-major (`expand_dims(self, 1) & expand_dims(other, 0)`): a 2 × 2 instance whose
+masks are not symmetric (the 1 × 1 statement `containsPair_unit` cannot see the layout) -/
+theorem containsPair_2x2 :
+    containsPair [true, false] [true, true] [true, false, true, true] [false, false, false, false]
+      [true, true, false, true] = [true, false, true, false] ∧
+    intersectsPair [true, false] [false, true] [false, false, true, false] [true, false, false, false]
+      [false, true, false, false] = [false, true, true, true] := by decide
+
+section added
+variable {K : Type*} [Field K] [LinearOrder K] [IsStrictOrderedRing K]
+
+/-- `Transformation.apply` on a disk moves all four stored points (three boundary points AND the interior point) by the
+same matrix: the image disk is bounded by the image circle and lies on the side of the image interior point -/
+theorem mobius_disk (M : M2 (Cx K)) (hM : M.det ≠ 0)
+    (d : (Cx K × Cx K) × (Cx K × Cx K) × (Cx K × Cx K) × (Cx K × Cx K)) (q : Cx K × Cx K) :
+    (OnCircle (actDisk M d).1 (actDisk M d).2.1 (actDisk M d).2.2.1 (act M q) ↔ OnCircle d.1 d.2.1 d.2.2.1 q) ∧
+    (SameSide (actDisk M d).1 (actDisk M d).2.1 (actDisk M d).2.2.1 (actDisk M d).2.2.2 (act M q)
+      ↔ SameSide d.1 d.2.1 d.2.2.1 d.2.2.2 q) := by
+  obtain ⟨p1, p2, p3, i⟩ := d
+  exact ⟨(mobius_concyclic M hM p1 p2 p3 q i).1, (mobius_concyclic M hM p1 p2 p3 i q).2⟩
+
+/-- the chart of `spherical_to_projective` is chosen so that the homogeneous pair is never small:
+`|z0|² + |z1|² = 2(1 + |z|) ≥ 2` (a chart test such as `z ≥ 1` would give pairs of norm² `2(1 − z)` near the pole) -/
+theorem s2p_well_conditioned (x y z : K) (h : x * x + y * y + z * z = 1) :
+    2 ≤ normSq (s2p x y z).1 + normSq (s2p x y z).2 := by
+  unfold s2p
+  split_ifs with hz
+  · simp [normSq, conj, ofReal]; nlinarith
+  · simp [normSq, conj, ofReal]; nlinarith
+
+end added
+
+/-- the three boundary points of the `"fs"` constructor are pairwise distinct (so they determine a circle) -/
+theorem fs_disk_boundary_distinct {F : Type*} [Field F] (q0 q1 q2 : V3 F) (r00 c2 s2 : F)
+    (h11 : dot3 q1 q1 = 1) (h22 : dot3 q2 q2 = 1) (h12 : dot3 q1 q2 = 0)
+    (hr : r00 * r00 = 1) (hs : s2 ≠ 0) (h2 : (2 : F) ≠ 0) :
+    (fsBoundary q0 q1 q2 r00 c2 s2).1 ≠ (fsBoundary q0 q1 q2 r00 c2 s2).2.1 ∧
+    (fsBoundary q0 q1 q2 r00 c2 s2).1 ≠ (fsBoundary q0 q1 q2 r00 c2 s2).2.2 ∧
+    (fsBoundary q0 q1 q2 r00 c2 s2).2.1 ≠ (fsBoundary q0 q1 q2 r00 c2 s2).2.2 := by
+  have hr0 : r00 ≠ 0 := by intro h; rw [h] at hr; simp at hr
+  obtain ⟨a0, a1, a2⟩ := q0
+  obtain ⟨b0, b1, b2⟩ := q1
+  obtain ⟨c0, c1, c2'⟩ := q2
+  simp only [dot3] at h11 h22 h12
+  simp only [fsBoundary, fsPoint]
+  -- if two boundary points coincide, pairing the difference with q1 (resp. q1 ∓ q2) gives r00·s2·(non-zero) = 0
+  refine ⟨?_, ?_, ?_⟩
+  · intro h
+    simp only [Prod.mk.injEq] at h
+    obtain ⟨e0, e1, e2⟩ := h
+    have : 2 * r00 * s2 * (b0 * b0 + b1 * b1 + b2 * b2) = 0 := by
+      linear_combination b0 * e0 + b1 * e1 + b2 * e2
+    rw [h11, mul_one] at this
+    exact (mul_ne_zero (mul_ne_zero h2 hr0) hs) this
+  · intro h
+    simp only [Prod.mk.injEq] at h
+    obtain ⟨e0, e1, e2⟩ := h
+    have : r00 * s2 * ((b0 * b0 + b1 * b1 + b2 * b2) - (b0 * c0 + b1 * c1 + b2 * c2')) = 0 := by
+      linear_combination b0 * e0 + b1 * e1 + b2 * e2
+    rw [h11, h12, sub_zero, mul_one] at this
+    exact (mul_ne_zero hr0 hs) this
+  · intro h
+    simp only [Prod.mk.injEq] at h
+    obtain ⟨e0, e1, e2⟩ := h
+    have : r00 * s2 * (-(b0 * b0 + b1 * b1 + b2 * b2) - (b0 * c0 + b1 * c1 + b2 * c2')) = 0 := by
+      linear_combination b0 * e0 + b1 * e1 + b2 * e2
+    rw [h11, h12, sub_zero, mul_neg, mul_one, neg_eq_zero] at this
+    exact (mul_ne_zero hr0 hs) this
+
 end GT.C20
